@@ -488,10 +488,42 @@ class MapfileTransformer(Transformer):
             [str(v.value) for v in t]
         )  # convert to string for boolean expressions e.g. (true)
 
-        if not self.quoter.in_parenthesis(exp):
+        if not self.in_matching_parenthesis(exp):
             t[0].value = f"({exp})"
 
         return t[0]
+
+    def in_matching_parenthesis(self, val: str) -> bool:
+        """
+        Check the opening parenthesis of val is closed by its final character,
+        so that "(a) + (b)" is not treated as already being in parentheses
+        """
+        if not self.quoter.in_parenthesis(val):
+            return False
+
+        val = val.strip()
+        depth = 0
+        quote = None
+        escaped = False
+
+        for i, c in enumerate(val):
+            if quote:
+                if escaped:
+                    escaped = False
+                elif c == "\\":
+                    escaped = True
+                elif c == quote:
+                    quote = None
+            elif c in ("'", '"', "`"):
+                quote = c
+            elif c == "(":
+                depth += 1
+            elif c == ")":
+                depth -= 1
+                if depth == 0 and i < len(val) - 1:
+                    return False
+
+        return depth == 0 and quote is None
 
     def add(self, t):
         assert len(t) == 2
